@@ -848,24 +848,27 @@ def target_of(cfg, tool):
 
 
 class Campaign:
-    """collects units, builds the padded record list, lets the T-layer judge it, maps rejections to verdicts"""
+    """collects units, builds the padded record list, lets the T-layer judge it (in portions), maps rejections to verdicts"""
 
     def __init__(self, ctx):
         self.ctx = ctx
         self.records = []
-        self.info = {}  # record id -> (set, cfg, omit, event)
+        self.info = {}  # record id -> (set, cfg, omit, event, unit observation)
         self.sets = {}
         self.not_accepted = []
         self.excluded = set()
         self.nunits = 0
         self.ncompiles = 0
-        self.observed = {}  # (set id, cfg, omit) -> {file: set(includes)}, produced
+        self.nrecords = 0
+        self.observed = {}  # (set id, cfg, omit) -> ({file: set(includes)}, produced) ; kept for the worlds only (prediction comparison)
+        self.found = []  # (clause, target, omode, class, what, case)
+        self.clean_unit = None  # a clean C unit for the binding self-tests
 
-    def add(self, sset, result):
-        self.sets[sset["id"]] = sset
+    def add(self, sset, result, keep_observed=False):
         if not result["accepted"]:
             self.not_accepted.append((sset["id"], sset["meta"].get("key"), result["why"]))
             return
+        self.sets[sset["id"]] = sset
         for u in result["units"]:
             evs = u["events"]
             if (len(self.records) % BATCH) + len(evs) > BATCH and len(evs) <= BATCH:
@@ -873,11 +876,12 @@ class Campaign:
                     self.records.append({"id": len(self.records), "ev": "nop"})
             obs = {}
             prod = set()
+            unit = (obs, prod)
             for e in evs:
                 e = dict(e)
                 e["id"] = len(self.records)
                 self.records.append(e)
-                self.info[e["id"]] = (sset["id"], u["cfg"], u["omit"], e)
+                self.info[e["id"]] = (sset["id"], u["cfg"], u["omit"], e, unit)
                 if e["ev"] == "refs":
                     obs[to_s(e["file"])] = {to_s(i) for i in e["includes"]}
                 elif e["ev"] == "gen":
@@ -885,27 +889,32 @@ class Campaign:
                 elif e["ev"] == "compile":
                     self.ncompiles += 1
                     self.ctx.count()
-            self.observed[(sset["id"], u["cfg"], u["omit"])] = (obs, prod)
+            if keep_observed:
+                self.observed[(sset["id"], u["cfg"], u["omit"])] = unit
             self.nunits += 1
             self.ctx.count()
 
     def judge(self):
+        """T-layer verdict on everything recorded since the last call"""
         ctx = self.ctx
+        if not self.records:
+            return {}
         rej = tlc.validate_traces(ctx, "IncludesTrace", self.records, batch=BATCH, constants=TRACE_CONSTANTS, xmx="2g")
         nops = sum(1 for r in self.records if r["ev"] == "nop")
         ctx.cov["traces_validated_against_impl"] -= nops
-        # exclusions first (they silence the rest of their unit inside the T-layer already)
+        self.nrecords += len(self.records) - nops
         for rid, clause in sorted(rej.items()):
             if rid not in self.info:
                 raise MachineryFailure("T-layer rejected padding record %r: %s" % (rid, clause))
-            sid, cfg, omode, e = self.info[rid]
+            sid, cfg, omode, e, unit = self.info[rid]
             if clause == "excluded.folded":
                 self.excluded.add((sid, cfg, omode))
-                ctx.cov["traces_validated_against_impl"] += 1
+                ctx.cov["traces_validated_against_impl"] += 1  # the exclusion is the model's verdict on that record
+        if self.clean_unit is None:
+            self.clean_unit = self._find_clean_unit(rej)
         seen_file = set()
-        found = []  # (clause, target, omode, class, what, case)
         for rid, clause in sorted(rej.items()):
-            sid, cfg, omode, e = self.info[rid]
+            sid, cfg, omode, e, unit = self.info[rid]
             sset = self.sets[sid]
             if clause == "excluded.folded":
                 continue
@@ -916,16 +925,16 @@ class Campaign:
             lang = CFGS[cfg][0]
             if clause == "gen.rc":
                 err = to_s(e["err"])
-                found.append((clause, lang, omode, diag_class(err), "generation of root namespace '%s' for %s (%s) raised %s" % (e["root"], cfg, omode, err),
-                              dict(case, root=e["root"])))
+                self.found.append((clause, lang, omode, diag_class(err),
+                                   "generation of root namespace '%s' for %s (%s) raised %s" % (e["root"], cfg, omode, err), dict(case, root=e["root"])))
             elif clause == "inc.closure":
                 f = to_s(e["file"])
-                obs, prod = self.observed[(sid, cfg, omode)]
+                obs, prod = unit
                 missing = sorted(i for i in obs.get(f, ()) if i not in prod)
                 kind = "support" if any("support" in m for m in missing) else "type"
-                found.append((clause, lang, omode, "refers to a %s file that is not produced" % kind,
-                              "%s (%s, %s) refers to %s; generating all involved namespaces produced only %s" % (f, cfg, omode, missing, sorted(prod)[:12]),
-                              dict(case, file=f)))
+                self.found.append((clause, lang, omode, "refers to a %s file that is not produced" % kind,
+                                   "%s (%s, %s) refers to %s; generating all involved namespaces produced only %s" % (f, cfg, omode, missing, sorted(prod)[:12]),
+                                   dict(case, file=f)))
             else:
                 f = to_s(e["file"])
                 if (sid, cfg, omode, f) in seen_file:
@@ -938,17 +947,37 @@ class Campaign:
                     if dc in classes:
                         continue
                     classes.add(dc)
-                    found.append((clause, target_of(cfg, e["tool"]), omode, dc,
-                                  "%s generated for %s (%s) handed alone to %s: rc=%d, diagnostic: %s" % (f, cfg, omode, e["tool"], e["rc"], diag or "(none)"),
-                                  dict(case, file=f, tool=e["tool"])))
-        # a failure that shows with support enabled AND omitted is one finding ("any"), otherwise the mode is part of the signature
-        modes = {}
-        for clause, target, omode, dc, what, case in found:
-            modes.setdefault((clause, target, dc), set()).add(omode)
-        for clause, target, omode, dc, what, case in found:
-            m = "any" if len(modes[(clause, target, dc)]) > 1 else omode
-            ctx.violation("C06|%s|%s|%s|%s" % (clause, target, m, dc), what, case)
+                    self.found.append((clause, target_of(cfg, e["tool"]), omode, dc,
+                                       "%s generated for %s (%s) handed alone to %s: rc=%d, diagnostic: %s" % (f, cfg, omode, e["tool"], e["rc"], diag or "(none)"),
+                                       dict(case, file=f, tool=e["tool"])))
+        self.records = []
+        self.info = {}
         return rej
+
+    def _find_clean_unit(self, rej):
+        for rid in range(len(self.records)):
+            e = self.records[rid]
+            if e["ev"] == "begin" and e.get("lang") == "c" and e.get("omit") == "ser":
+                evs, k = [], rid
+                while k < len(self.records) and (k == rid or self.records[k]["ev"] not in ("begin", "nop")):
+                    evs.append(self.records[k])
+                    k += 1
+                if any(x["id"] in rej for x in evs):
+                    continue
+                if any(x["ev"] == "compile" and x["rc"] == 0 and not x["diag"] for x in evs) and \
+                        any(x["ev"] == "refs" and x["includes"] and any("support" in to_s(i) for i in x["includes"]) for x in evs):
+                    return [dict(x) for x in evs]
+        return None
+
+    def report(self):
+        """a failure that shows with support enabled AND omitted is one finding ("any"), otherwise the mode is part of the signature"""
+        self.judge()
+        modes = {}
+        for clause, target, omode, dc, what, case in self.found:
+            modes.setdefault((clause, target, dc), set()).add(omode)
+        for clause, target, omode, dc, what, case in self.found:
+            m = "any" if len(modes[(clause, target, dc)]) > 1 else omode
+            self.ctx.violation("C06|%s|%s|%s|%s" % (clause, target, m, dc), what, case)
 
 
 def compare_prediction(ctx, camp, sset, cfgs, omodes):
@@ -994,46 +1023,63 @@ def observe_design(ctx, tools):
     return res
 
 
-def model_cfg(ctx, name, *, N, nested, style="file", supref="unless_omitted", supgen="unless_omitted", resp=True, arrs=True, emit=False,
-              invariants=("TypeOK", "Closure", "SelfSufficient")):
+STATIC_CFGS = {
+    # (RefStyle, SupportRef, SupportGen) -> (quick cfg, thorough cfg) in /verif/specs
+    ("file", "unless_omitted", "unless_omitted"): ("Includes", "Includes_4"),
+    ("package", "always", "unless_omitted"): ("Includes_py", "Includes_py"),
+    ("package", "always", "always"): ("Includes_pyfixed", "Includes_pyfixed"),
+    ("file", "always", "unless_omitted"): ("Includes_neg_support", "Includes_neg_support"),
+}
+
+
+def model_cfg(ctx, name, *, N, nested, style="file", supref="unless_omitted", supgen="unless_omitted"):
+    """a configuration for a design that has no static .cfg in /verif/specs (the observed parameters decide)"""
     d = ctx.scratch / "cfg"
     d.mkdir(exist_ok=True)
     consts = {"N": N, "NRoots": 2, "NestedRoots": nested, "RefStyle": '"%s"' % style, "SupportRef": '"%s"' % supref, "SupportGen": '"%s"' % supgen,
-              "ScanResponse": "TRUE" if resp else "FALSE", "ScanArrays": "TRUE" if arrs else "FALSE", "EmitWorlds": "TRUE" if emit else "FALSE"}
-    return tlc.write_cfg(d / (name + ".cfg"), spec="Spec", post=None, constants=consts, invariants=list(invariants) + (["Emit"] if emit else [])), consts
+              "ScanResponse": "TRUE", "ScanArrays": "TRUE", "EmitWorlds": "FALSE"}
+    return tlc.write_cfg(d / (name + ".cfg"), spec="Spec", post=None, constants=consts, invariants=["TypeOK", "Closure", "SelfSufficient"])
 
 
 def run_models(ctx, design):
     spec = tlc.SPECS / "Includes.tla"
-    N = ctx.pick(3, 4)
-    nested = ctx.pick("{1}", "{1, 2}")
     predicted = {}
+    done = {}
     for lang in ("c", "cpp", "py"):
         d = design[lang]
         style = "package" if lang == "py" else "file"
-        cfg, consts = model_cfg(ctx, "design_" + lang, N=N if lang != "cpp" else 3, nested=nested if lang != "cpp" else "{1}", style=style,
-                                supref=d["SupportRef"], supgen=d["SupportGen"])
-        res = tlc.run_tlc(spec, cfg, ctx.scratch, timeout=3000, constants=" ".join("%s=%s" % kv for kv in consts.items()))
+        key = (style, d["SupportRef"], d["SupportGen"])
+        if key in done:
+            predicted[lang] = done[key]
+            continue
+        if key in STATIC_CFGS:
+            cfgname = STATIC_CFGS[key][0 if ctx.quick else 1]
+            cfg = tlc.SPECS / (cfgname + ".cfg")
+        else:
+            cfgname = "observed design of " + lang
+            cfg = model_cfg(ctx, "design_" + lang, N=3, nested="{1}", style=style, supref=d["SupportRef"], supgen=d["SupportGen"])
+        consts = "%s: RefStyle=%s SupportRef=%s SupportGen=%s" % (cfgname, *key)
+        res = tlc.run_tlc(spec, cfg, ctx.scratch, timeout=3000, constants=consts)
         if res.ok:
-            ctx.add_model(res, "Includes.tla design observed for %s" % lang)
+            ctx.add_model(res, "Includes.tla / %s.cfg (design observed for %s)" % (cfgname, lang))
             predicted[lang] = None
-        elif res.violated in ("Closure",):
+        elif res.violated == "Closure":
             # a design-level finding predicted by the model: the replay below must exhibit it on the real code (only that is a verdict)
             ctx.cov["states"] += res.distinct
             ctx.cov["transitions"] += res.generated
-            ctx.cov["model_runs"].append({"spec": "Includes.tla design observed for %s" % lang, "generated": res.generated, "distinct": res.distinct,
-                                          "depth": res.depth, "wall_s": round(res.wall, 1), "mode": "exhaustive",
-                                          "constants": res.constants, "result": "invariant Closure REFUTED for the observed design"})
+            ctx.cov["model_runs"].append({"spec": "Includes.tla / %s.cfg (design observed for %s)" % (cfgname, lang), "generated": res.generated,
+                                          "distinct": res.distinct, "depth": res.depth, "wall_s": round(res.wall, 1), "mode": "exhaustive",
+                                          "constants": consts, "result": "invariant Closure REFUTED for the observed design"})
             predicted[lang] = "Closure"
         else:
-            raise MachineryFailure("Includes.tla (%s design) failed: %s %s\n%s" % (lang, res.error, res.violated, res.out[-2500:]))
+            raise MachineryFailure("Includes.tla (%s design, %s) failed: %s %s\n%s" % (lang, cfgname, res.error, res.violated, res.out[-2500:]))
+        done[key] = predicted[lang]
     # negative controls: the invariants are not vacuous
-    for name, kw, inv in (("neg_support", dict(supref="always"), "Closure"), ("neg_response", dict(resp=False), "SelfSufficient"),
-                          ("neg_arrays", dict(arrs=False), "SelfSufficient"), ("neg_pkg_support", dict(style="package", supref="always"), "Closure")):
-        cfg, consts = model_cfg(ctx, name, N=3, nested="{1}", **kw)
-        res = tlc.run_tlc(spec, cfg, ctx.scratch, timeout=1200)
+    for cfgname, inv in (("Includes_neg_support", "Closure"), ("Includes_neg_response", "SelfSufficient"), ("Includes_neg_arrays", "SelfSufficient"),
+                         ("Includes_py", "Closure")):
+        res = tlc.run_tlc(spec, tlc.SPECS / (cfgname + ".cfg"), ctx.scratch, timeout=1200)
         if res.violated != inv:
-            raise MachineryFailure("negative control %s: expected invariant %s to be refuted, got %s %s" % (name, inv, res.violated, res.error))
+            raise MachineryFailure("negative control %s: expected invariant %s to be refuted, got %s %s" % (cfgname, inv, res.violated, res.error))
     ctx.cov["model_negative_controls"] = ["support referred although omitted -> Closure refuted", "response attributes not scanned -> SelfSufficient refuted",
                                           "array elements not scanned -> SelfSufficient refuted", "package style + support always referred -> Closure refuted"]
     return predicted
@@ -1041,27 +1087,16 @@ def run_models(ctx, design):
 
 def emit_worlds(ctx, design):
     """spec -> code: every world of the bounded design"""
-    cfg, consts = model_cfg(ctx, "emit_worlds", N=3, nested="{1}", emit=True, invariants=())
-    res = tlc.run_tlc(tlc.SPECS / "Includes.tla", cfg, ctx.scratch, workers=1, timeout=3000, constants="N=3 NRoots=2 NestedRoots={1} (world emission)")
-    if not res.ok:
-        raise MachineryFailure("world emission failed: %s %s\n%s" % (res.error, res.violated, res.out[-2500:]))
-    ctx.add_model(res, "Includes.tla world emission")
-    worlds = res.json_lines()
+    worlds = tlc.emit_cases(ctx, "Includes", "Includes_emit", name="Includes.tla / Includes_emit.cfg (world emission)",
+                            constants="N=3 NRoots=2 NestedRoots={1}", timeout=3000)
     if len(worlds) < 1000:
         raise MachineryFailure("too few worlds emitted: %d" % len(worlds))
     return worlds
 
 
 def emit_names(ctx):
-    d = ctx.scratch / "cfg"
-    d.mkdir(exist_ok=True)
-    maxw = ctx.pick(3, 6)
-    cfg = tlc.write_cfg(d / "names.cfg", spec="Spec", post=None, constants={"MaxWords": maxw}, invariants=["Emit"])
-    res = tlc.run_tlc(tlc.SPECS / "IncludesNames.tla", cfg, ctx.scratch, workers=1, timeout=1200, constants="MaxWords=%d" % maxw)
-    if not res.ok:
-        raise MachineryFailure("name universe emission failed: %s %s\n%s" % (res.error, res.violated, res.out[-2500:]))
-    ctx.add_model(res, "IncludesNames.tla")
-    cases = res.json_lines()
+    cfgname = ctx.pick("IncludesNames", "IncludesNames_t")
+    cases = tlc.emit_cases(ctx, "IncludesNames", cfgname, name="IncludesNames.tla / %s.cfg" % cfgname, constants="MaxWords=%d" % ctx.pick(3, 4), timeout=1200)
     if len(cases) < 200:
         raise MachineryFailure("too few name cases emitted: %d" % len(cases))
     return cases
@@ -1072,7 +1107,17 @@ def select_name_cases(ctx, cases):
     and every (kind, position) with class and word rotating - so that the verdict does not depend on the seed."""
     cases = sorted(cases, key=lambda c: (c["pos"], c["cls"], c["w"], c["kind"]))
     if not ctx.quick:
-        return cases
+        # thorough: the whole product for the first two words of every class, further words with the kind rotating
+        res, n = [], 0
+        by = {}
+        for c in cases:
+            if c["w"] <= 2:
+                res.append(c)
+            else:
+                by.setdefault((c["pos"], c["cls"], c["w"]), []).append(c)
+        for n, (k, lst) in enumerate(sorted(by.items())):
+            res.append(lst[n % len(lst)])
+        return res
     kinds = sorted({c["kind"] for c in cases})
     by = {}
     for c in cases:
@@ -1165,8 +1210,9 @@ def run(ctx):
     for (sset, cfgs, modes), r in zip(wsets, run_jobs(ctx, wjobs)):
         if not r["accepted"]:
             raise MachineryFailure("the front end rejected a world of the model: %s (%s)" % (sset["id"], r["why"]))
-        camp.add(sset, r)
+        camp.add(sset, r, keep_observed=True)
         ctx.distinct(sset["meta"]["key"], nontrivial=any(t["deps"] and any(v != "none" for v in t["deps"]) for t in sset["meta"]["world"]["types"]))
+    camp.judge()
     ndrift = 0
     for sset, cfgs, modes in wsets:
         d = compare_prediction(ctx, camp, sset, cfgs, modes)
@@ -1204,6 +1250,7 @@ def run(ctx):
     if nsets:
         s = nsets[len(nsets) // 3]
         ctx.sample({"direction": "spec->code", "name_case": s["meta"], "dsdl": s["files"]})
+    camp.judge()
 
     # ---- 4. code -> spec: larger random sets and the trees shipped in the repository
     rsets = [random_set(ctx.rng, i) for i in range(ctx.pick(12, 160))]
@@ -1220,8 +1267,8 @@ def run(ctx):
     if nacc < (len(rsets) + len(usets)) // 3:
         raise MachineryFailure("too few random / repository sets were accepted by the front end: %d of %d" % (nacc, len(rsets) + len(usets)))
 
-    # ---- 5. the T-layer judges everything that was recorded
-    camp.judge()
+    # ---- 5. the T-layer judged every portion that was recorded; verdicts
+    camp.report()
     for lang, inv in predicted.items():
         if inv:
             hit = [v for v in ctx.violations if v[0].startswith("C06|inc.closure|%s|" % lang)] + [s for s in ctx.known_hit if s.startswith("C06|inc.closure|%s|" % lang)]
@@ -1258,20 +1305,7 @@ def run(ctx):
 
 def selftests(ctx, camp):
     """corrupt one recorded field per clause: the T-layer must reject exactly that record"""
-    # a small clean unit to corrupt: first unit that has refs + compile events and was not rejected
-    unit = None
-    start = None
-    for rid in range(len(camp.records)):
-        e = camp.records[rid]
-        if e["ev"] == "begin" and e.get("lang") == "c" and e.get("omit") == "ser":
-            evs = []
-            k = rid
-            while k < len(camp.records) and (k == rid or camp.records[k]["ev"] not in ("begin", "nop")):
-                evs.append(camp.records[k])
-                k += 1
-            if any(x["ev"] == "compile" and x["rc"] == 0 and not x["diag"] for x in evs) and any(x["ev"] == "refs" and x["includes"] for x in evs):
-                unit, start = evs, rid
-                break
+    unit = camp.clean_unit
     if unit is None:
         raise MachineryFailure("self-test: no clean C unit with references and compile events was recorded")
 
@@ -1315,28 +1349,37 @@ def selftests(ctx, camp):
             if e["ev"] == "refs" and any("support" in to_s(i) for i in e["includes"]) and "support" not in to_s(e["file"]):
                 return n
 
-    for name, mut, clause in (("an include of a file that was not produced is rejected (inc.closure)", m_closure, "inc.closure"),
-                              ("a non-zero compiler exit status is rejected (build.rc)", m_rc, "build.rc"),
-                              ("a diagnostic with exit status 0 is rejected (build.diag)", m_diag, "build.diag"),
-                              ("a failed generator run is rejected (gen.rc)", m_gen, "gen.rc"),
-                              ("support header removed from the produced set: referring file rejected (inc.closure)", m_unproduced, "inc.closure")):
+    def m_folded(recs):
+        recs[0]["groups"] = [[{"raw": cps("if"), "strop": cps("_if")}, {"raw": cps("_if"), "strop": cps("_if")}]]
+        m_rc(recs)
+        return 0
+
+    tests = (("an include of a file that was not produced is rejected (inc.closure)", m_closure, "inc.closure", True),
+             ("a non-zero compiler exit status is rejected (build.rc)", m_rc, "build.rc", True),
+             ("a diagnostic with exit status 0 is rejected (build.diag)", m_diag, "build.diag", True),
+             ("a failed generator run is rejected (gen.rc)", m_gen, "gen.rc", True),
+             ("support header removed from the produced set: the referring file is rejected (inc.closure)", m_unproduced, "inc.closure", False),
+             ("the uncorrupted unit is accepted", lambda r: None, None, True),
+             ("folded names exclude the unit instead of judging it (Folded)", m_folded, "excluded.folded", True))
+    allrecs, expect = [], []
+    for name, mut, clause, exact in tests:
         recs, target = variant(mut)
-        before = ctx.cov["traces_validated_against_impl"]
-        rej = tlc.validate_traces(ctx, "IncludesTrace", recs, batch=BATCH, constants=TRACE_CONSTANTS, xmx="1g")
-        ctx.cov["traces_validated_against_impl"] = before
-        ctx.selftest(name, target is not None and rej.get(target) == clause)
-    # the clean unit itself must be accepted (otherwise the rejections above prove nothing)
-    recs, _ = variant(lambda r: None)
+        base = len(allrecs)
+        for e in recs:
+            e["id"] += base
+        allrecs += recs
+        expect.append((name, clause, None if target is None else base + target, range(base, base + len(recs)), exact))
     before = ctx.cov["traces_validated_against_impl"]
-    rej = tlc.validate_traces(ctx, "IncludesTrace", recs, batch=BATCH, constants=TRACE_CONSTANTS, xmx="1g")
+    st, tr = ctx.cov["states"], ctx.cov["transitions"]
+    rej = tlc.validate_traces(ctx, "IncludesTrace", allrecs, batch=len(allrecs) + 1, constants=TRACE_CONSTANTS, xmx="1g")
     ctx.cov["traces_validated_against_impl"] = before
-    ctx.selftest("the uncorrupted unit is accepted", not rej)
-    # exclusion: a unit whose names fold must be excluded, not judged
-    recs, _ = variant(lambda r: r[0].__setitem__("groups", [[{"raw": cps("if"), "strop": cps("_if")}, {"raw": cps("_if"), "strop": cps("_if")}]]) or m_rc(r))
-    before = ctx.cov["traces_validated_against_impl"]
-    rej = tlc.validate_traces(ctx, "IncludesTrace", recs, batch=BATCH, constants=TRACE_CONSTANTS, xmx="1g")
-    ctx.cov["traces_validated_against_impl"] = before
-    ctx.selftest("folded names exclude the unit (Folded)", rej.get(0) == "excluded.folded" and len(rej) == 1)
+    ctx.cov["states"], ctx.cov["transitions"] = st, tr
+    for name, clause, target, ids, exact in expect:
+        mine = {k: v for k, v in rej.items() if k in ids}
+        if clause is None:
+            ctx.selftest(name, not mine)
+        else:
+            ctx.selftest(name, target is not None and mine.get(target) == clause and (len(mine) == 1 or not exact))
     # spec -> code: perturb one expected outcome, the comparison must report it
     for sid, sset in camp.sets.items():
         if sset["meta"].get("src") == "world" and (sid, "c", "ser") in camp.observed and any(t["direct"] for t in sset["meta"]["world"]["types"]):
@@ -1366,4 +1409,4 @@ def replay(ctx, case):
     if not r["accepted"]:
         print("replay: the front end does not accept this input any more (%s)" % r["why"])
         return
-    camp.judge()
+    camp.report()
